@@ -425,3 +425,330 @@ def ref_string_parse(enc, packet, pos, adj=None):
     except UnicodeDecodeError:
         return Raises('UnicodeDecodeError')
     return text, raw, pos + L
+
+
+# ---- whole-packet reference decoding (C05 / C01 decode half / C11 / C14) ----------------------------------------------
+
+class _RV:
+    raw_value = None
+
+
+class RInt(_RV, int):
+    pass
+
+
+class RFloat(_RV, float):
+    pass
+
+
+class RStr(_RV, str):
+    pass
+
+
+class RBytes(_RV, bytes):
+    pass
+
+
+class BoolParameter(_RV, int):      # same class NAME as the library's, so builtin_of() treats it as a boolean
+    pass
+
+
+def _rv(cls, value, raw):
+    o = cls(value)
+    o.raw_value = raw
+    return o
+
+
+CLASS_OF = {'RInt': 'IntParameter', 'RFloat': 'FloatParameter', 'RStr': 'StrParameter', 'RBytes': 'BinaryParameter',
+            'BoolParameter': 'BoolParameter'}
+
+
+class RefPacket(dict):
+    def __init__(self, raw):
+        super().__init__()
+        self.raw_data = bytes(raw)
+        self.pos = 0
+
+
+class Unrecognized(Exception):
+    def __init__(self, partial):
+        self.partial = partial
+
+
+class DecodeError(Exception):
+    def __init__(self, name):
+        self.name = name
+
+
+def _must(r):
+    if isinstance(r, Raises):
+        raise DecodeError(r.name)
+    return r
+
+
+def ref_param_value(ptype, packet, adj_of=None):
+    """decode one parameter at packet.pos per its type and encoding; returns the reference value object"""
+    enc = ptype.encoding
+    en = type(enc).__name__
+    tn = type(ptype).__name__
+    adj = adj_of(enc) if adj_of else None
+    if en in ('IntegerDataEncoding', 'FloatDataEncoding'):
+        if tn in ('EnumeratedParameterType', 'BooleanParameterType'):
+            raw, newpos = _must(ref_numeric_raw(enc, packet.raw_data, packet.pos))
+            packet.pos = newpos
+        else:
+            v, raw, cls, newpos = _must(ref_numeric_parse(enc, packet, packet.pos))
+            packet.pos = newpos
+            return _rv(RInt if cls == 'IntParameter' else RFloat, int(v) if cls == 'IntParameter' else float(v), raw)
+    elif en == 'StringDataEncoding':
+        text, rawb, newpos = _must(ref_string_parse(enc, packet, packet.pos, adj))
+        packet.pos = newpos
+        if tn not in ('EnumeratedParameterType', 'BooleanParameterType'):
+            return _rv(RStr, text, rawb)
+        raw = rawb
+    elif en == 'BinaryDataEncoding':
+        val, newpos = _must(ref_binary_parse(enc, packet, packet.pos, adj))
+        packet.pos = newpos
+        if tn not in ('EnumeratedParameterType', 'BooleanParameterType'):
+            return _rv(RBytes, val, val)
+        raw = val
+    else:
+        raise DecodeError('TypeError')
+    if tn == 'EnumeratedParameterType':
+        if raw not in ptype.enumeration:
+            raise DecodeError('ValueError')
+        return _rv(RStr, ptype.enumeration[raw], raw)
+    return _rv(BoolParameter, bool(raw), raw)
+
+
+def ref_container(defn, container, packet, adj_of=None):
+    for entry in container.entry_list:
+        if hasattr(entry, 'entry_list'):
+            ref_container(defn, entry, packet, adj_of)
+        else:
+            packet[entry.name] = ref_param_value(entry.parameter_type, packet, adj_of)
+
+
+def ref_inheritors(defn, container):
+    return [n for n, c in defn.containers.items() if c.base_container_name == container.name]
+
+
+def ref_parse(defn, raw, root=None, adj_of=None):
+    """C05: start at the root, descend to the unique child whose restriction criteria all hold"""
+    packet = RefPacket(raw)
+    cur = defn.containers[root or defn.root_container_name]
+    while True:
+        ref_container(defn, cur, packet, adj_of)
+        valid = []
+        for n in ref_inheritors(defn, cur):
+            ok = _must(ref_all(defn.containers[n].restriction_criteria, packet))
+            if ok:
+                valid.append(n)
+        if len(valid) == 1:
+            cur = defn.containers[valid[0]]
+            continue
+        if len(valid) == 0 and not cur.abstract:
+            return packet
+        raise Unrecognized(packet)
+
+
+def ref_parse_outcome(defn, raw, root=None, adj_of=None):
+    """('ok', packet) | ('unrecognized', partial packet) | ('error', exception class name)"""
+    try:
+        return 'ok', ref_parse(defn, raw, root, adj_of)
+    except Unrecognized as u:
+        return 'unrecognized', u.partial
+    except DecodeError as d:
+        return 'error', d.name
+
+
+def same_items(real, ref):
+    """item by item: names in order, built-in value, raw value and value class"""
+    if list(real.keys()) != list(ref.keys()):
+        return False
+    for k in ref:
+        a, b = real[k], ref[k]
+        if type(a).__name__ != CLASS_OF[type(b).__name__]:
+            return False
+        av, bv = builtin_of(a), builtin_of(b)
+        if isinstance(bv, float):
+            if not (same_float(av, bv) or close(av, bv)):
+                return False
+        elif av != bv or type(av) is not type(bv):
+            return False
+        ar, br = a.raw_value, b.raw_value
+        if isinstance(br, float):
+            if not same_float(float(ar), br):
+                return False
+        elif ar != br or type(builtin_of(ar)) is not type(builtin_of(br)):
+            return False
+    return True
+
+
+# ---- stream level (C11 / C12 / C14) ------------------------------------------------------------------------------------
+
+def ref_stream(defn, raw_packets, headers_only=False, combine=False, sec=0, yield_errors=False, parse_bad=True,
+               root=None):
+    """expected outputs of a definition's packet generator for a stream given as its list of raw packets"""
+    state = {}
+    out = []
+    warnings_expected = {'segment': 0, 'length': 0}
+    for raw in raw_packets:
+        apid = ref_bits(raw, 5, 11)
+        flags = ref_bits(raw, 16, 2)
+        if headers_only:
+            out.append(('raw', raw))
+            continue
+        if not combine or flags == 3:
+            data = raw
+        elif flags == 1:
+            state[apid] = [raw]
+            continue
+        elif not state.get(apid):
+            warnings_expected['segment'] += 1
+            continue
+        elif flags == 0:
+            state[apid].append(raw)
+            continue
+        else:
+            group = state.pop(apid) + [raw]          # the group is closed whatever the outcome
+            counts = [ref_bits(p, 18, 14) for p in group]
+            if not all((b - a) % 16384 == 1 for a, b in zip(counts, counts[1:])):
+                warnings_expected['segment'] += 1
+                continue
+            data = group[0] + b''.join(p[6 + sec:] for p in group[1:])
+        kind, val = ref_parse_outcome(defn, data, root)
+        if kind == 'unrecognized':
+            if yield_errors:
+                out.append(('unrecognized', val))
+            continue
+        if kind == 'error':
+            out.append(('raise', val))
+            break
+        clean = (val.pos == 8 * len(data))
+        if not clean:
+            warnings_expected['length'] += 1
+            if not parse_bad:
+                continue
+        out.append(('packet', val, clean, data))
+    return out, warnings_expected
+
+
+def stream_matches(real, expected):
+    """real = {'items': [...], 'warnings': [messages], 'raised': class name or None}.
+    Where the reference decoder prescribes a decode error for a packet (a field extends past the end of the packet,
+    an unlisted enumeration value, undecodable text ...) the library may raise any exception or carry on, but the item
+    for THAT packet must not be delivered as clean (C14); everything before it must match exactly."""
+    exp, warns = expected
+    items = real['items']
+    cut = None
+    if exp and exp[-1][0] == 'raise':
+        cut = len(exp) - 1
+        exp = exp[:-1]
+    if cut is None:
+        if real['raised'] is not None or len(items) != len(exp):
+            return False
+    else:
+        if len(items) < len(exp):
+            return False
+        if len(items) > cut:
+            it = items[cut]
+            if type(it).__name__ == 'CCSDSPacket' and it.raw_data.pos == 8 * len(it.raw_data):
+                return False        # an over-read / undecodable packet delivered as if it were clean
+        items = items[:cut]
+    for it, e in zip(items, exp):
+        if e[0] == 'raw':
+            if bytes(it) != e[1] or type(it).__name__ != 'RawPacketData':
+                return False
+        elif e[0] == 'unrecognized':
+            if type(it).__name__ != 'UnrecognizedPacketTypeError' or not same_items(it.partial_data, e[1]):
+                return False
+        else:
+            if type(it).__name__ != 'CCSDSPacket' or not same_items(it, e[1]) or bytes(it.raw_data) != e[3]:
+                return False
+            if (it.raw_data.pos == 8 * len(it.raw_data)) != e[2]:
+                return False
+    if cut is None:
+        nlen = sum(1 for w in real['warnings'] if 'did not match' in w)
+        nseg = sum(1 for w in real['warnings'] if 'ontinuation' in w)
+        if nlen != warns['length'] or nseg != warns['segment']:
+            return False
+    return True
+
+
+# ---- structural view of a definition (independent comparison; unlike the library's ==, callables are probed) ---------
+
+def canon(obj, depth=0):
+    """canonical, comparable structure of a definition object graph"""
+    if depth > 40:
+        return '<deep>'
+    n = type(obj).__name__
+    if obj is None or isinstance(obj, (bool, int, float, str, bytes)):
+        return obj
+    if callable(obj) and not hasattr(obj, '__dict__') or n == 'function':
+        try:
+            return ('linear', obj(0), obj(1) - obj(0), obj(7) - obj(0))
+        except Exception as e:      # noqa
+            return ('callable', type(e).__name__)
+    if isinstance(obj, (list, tuple)):
+        if hasattr(obj, '_fields'):
+            return (n,) + tuple((f, canon(getattr(obj, f), depth + 1)) for f in obj._fields)
+        return [canon(x, depth + 1) for x in obj]
+    if isinstance(obj, dict):
+        return [(canon(k), canon(v, depth + 1)) for k, v in obj.items()]
+    if n == 'SequenceContainer':
+        return ('SequenceContainer', obj.name, [(type(e).__name__, e.name) for e in obj.entry_list],
+                obj.base_container_name, canon(obj.restriction_criteria, depth + 1), bool(obj.abstract),
+                obj.short_description, obj.long_description, sorted(obj.inheritors))
+    if n == 'Parameter':
+        return ('Parameter', obj.name, obj.parameter_type.name, obj.short_description, obj.long_description)
+    if hasattr(obj, '__dict__'):
+        items = []
+        for k in sorted(vars(obj)):
+            if k == 'parse_func':
+                continue
+            items.append((k, canon(getattr(obj, k), depth + 1)))
+        return (n, items)
+    return repr(obj)
+
+
+def canon_definition(d):
+    return {'parameter_types': [(k, canon(v)) for k, v in d.parameter_types.items()],
+            'parameters': [(k, canon(v)) for k, v in d.parameters.items()],
+            'containers': [(k, canon(v)) for k, v in d.containers.items()],
+            'root': d.root_container_name}
+
+
+def same_definition(a, b, ordered=False):
+    ca, cb = canon_definition(a), canon_definition(b)
+    if not ordered:
+        for k in ('parameter_types', 'parameters', 'containers'):
+            ca[k] = sorted(ca[k], key=lambda t: t[0])
+            cb[k] = sorted(cb[k], key=lambda t: t[0])
+    return ca == cb
+
+
+def consistent_graph(d):
+    """C17: every name denotes exactly one object and every link refers to that object; inheritor lists are exactly
+    the containers naming the container as their base, each once"""
+    for name, c in d.containers.items():
+        if c.name != name:
+            return False
+        for e in c.entry_list:
+            if hasattr(e, 'entry_list'):
+                if d.containers.get(e.name) is not e:
+                    return False
+            else:
+                if d.parameters.get(e.name) is not e:
+                    return False
+                if d.parameter_types.get(e.parameter_type.name) is not e.parameter_type:
+                    return False
+        if c.base_container_name is not None and c.base_container_name not in d.containers:
+            return False
+        expected = [n for n, o in d.containers.items() if o.base_container_name == name]
+        if sorted(c.inheritors) != sorted(expected) or len(set(c.inheritors)) != len(c.inheritors):
+            return False
+    for name, p in d.parameters.items():
+        if p.name != name or d.parameter_types.get(p.parameter_type.name) is not p.parameter_type:
+            return False
+    return True
